@@ -524,7 +524,8 @@ impl Board {
                 let color = board.side_to_move();
                 let ep_rank = Rank::Sixth.relative_to(color);
                 let ep_square = Square::new(ep_file, ep_rank);
-                let attackers = get_pawn_attacks(ep_square, !color);
+                let attackers = get_pawn_attacks(ep_square, !color)
+                    & board.colored_pieces(color, Piece::Pawn);
                 for attacker in attackers {
                     let mv = Move {
                         from: attacker,
